@@ -113,7 +113,12 @@ async fn random_history(hrng: &mut Rng, gpar: &GenParams, big: bool, case: usize
                 break;
             }
             CreateOutcome::Panic(p) => {
-                summary.oracle_failure(case, &format!("Block::create panicked on valid input: {}", p), &desc);
+                // with a payout multiplier > 1 the chain is dead anyway (C13 finding payout-multiplier-halts-chain);
+                // amount * multiplier may then also overflow u64 in the producer (debug profile)
+                summary.count("producer_panicked", &format!("multiplier{}1:{}", if mult > 1 { ">" } else { "=" }, p));
+                if mult <= 1 {
+                    summary.oracle_failure(case, &format!("Block::create panicked on valid input: {}", p), &desc);
+                }
                 break;
             }
             CreateOutcome::NotCalled => {}
@@ -206,7 +211,8 @@ async fn scripted(name: &str, case: usize, summary: &mut Summary) -> (Sim, Strin
             let (_co, sr) = sim.honest_step(ts, None, &[tx]).await;
             c02_oracle(&mut sim, &sr, case, summary, &desc, Some("bound-transaction-fee-uncounted"));
         }
-        // a BlockStake-typed transaction without inputs creating outputs
+        // a BlockStake-typed transaction without inputs creating outputs: must be rejected
+        // (accepted before fix 4119a69; with 2 x 2^63 the release build minted 2^64 unnoticed)
         "blockstake-mint" | "blockstake-mint-2-64" => {
             sim = scripted_prefix(3, 8, ISS, 2, 7).await;
             let ts = sim.tip().timestamp + 2 * HEARTBEAT + 1000;
@@ -219,7 +225,25 @@ async fn scripted(name: &str, case: usize, summary: &mut Summary) -> (Sim, Strin
             let parent = sim.tip().clone();
             let gt = gt_tx_for(&sim.node, &parent, sim.keys[1].0, 9).await;
             let (_co, sr) = sim.honest_step(ts, Some(gt), &[tx]).await;
-            c02_oracle(&mut sim, &sr, case, summary, &desc, Some("blockstake-transaction-mints"));
+            if sr.add != Some(AddClass::Invalid) {
+                summary.oracle_failure(case, &format!("block with a BlockStake transaction creating coins from nothing was not rejected: {:?}", sr.add), &desc);
+            }
+            c02_oracle(&mut sim, &sr, case, summary, &desc, None);
+        }
+        // a properly signed BlockStake-typed transaction that pays a fee
+        "blockstake-tx-fee" => {
+            sim = scripted_prefix(3, 8, ISS, 2, 7).await;
+            let ts = sim.tip().timestamp + 2 * HEARTBEAT + 1000;
+            let s = sim.spendable().into_iter().find(|s| s.public_key == sim.keys[1].0 && s.amount == 333_000).unwrap();
+            let tx = raw_tx(
+                TransactionType::BlockStake,
+                vec![s.clone()],
+                vec![slip_out(s.public_key, 300_000, SlipType::BlockStake), slip_out(s.public_key, 31_000, SlipType::Normal)],
+                &sim.keys[1].1,
+                ts,
+            ); // fee 2000
+            let (_co, sr) = sim.honest_step(ts, None, &[tx]).await;
+            c02_oracle(&mut sim, &sr, case, summary, &desc, Some("blockstake-transaction-fee-uncounted"));
         }
         // a golden ticket naming the all-zero key
         "zero-key-golden-ticket" => {
@@ -338,6 +362,7 @@ async fn main() {
         "bound-tx-fee",
         "blockstake-mint",
         "blockstake-mint-2-64",
+        "blockstake-tx-fee",
         "zero-key-golden-ticket",
         "nft-rebroadcast",
         "collected-output-spent",
